@@ -65,3 +65,117 @@ Proof.
   f_equal; [f_equal|]; try ring. f_equal; ring.
 Qed.
 Print Assumptions C12_reference_defaults.
+
+From Coquelicot Require Import Coquelicot.
+From MuxV Require Import Base.Vec3 Model.QCurve Proofs.QCurveP.
+Local Open Scope R_scope.
+(* ---------------------------------------------------------------------------------------------------------------------------------
+   The lifting line lies on the documented curve.  [qc_code] is wing_segment.py's piece-wise accumulation between the discontinuities
+   with scipy's quad read as the Riemann integral of the code's integrands (per-side signs of sweep and dihedral included);
+   [curve_spec] is the documented curve in terms of the description's own angles Lambda(s), Gamma(s):
+       x(s) = x0 - b Int_0^s tan Lambda,   y(s) = y0 +- b Int_0^s cos Gamma,   z(s) = z0 - b Int_0^s sin Gamma.
+   The integrability hypotheses are what the proof needs of the description (they hold for every constant, piece-wise linear or
+   step table; the constant case is discharged below). *)
+Theorem C12_quarter_chord_curve : forall (dr : R) (sw di : dist R),
+  (forall a b, ex_RInt (fun s => tan (angle_val dr sw s)) a b) ->
+  (forall a b, ex_RInt (fun s => cos (angle_val dr di s)) a b) ->
+  (forall a b, ex_RInt (fun s => sin (angle_val dr di s)) a b) ->
+  forall left_side root b rest s, nondecr 0 rest -> 0 <= s <= last rest 0 ->
+  qc_code dr sw di left_side root b (0 :: rest) s = curve_spec dr sw di left_side root b s.
+Proof. exact qc_standard_is_curve. Qed.
+Print Assumptions C12_quarter_chord_curve.
+
+(* the list of discontinuities the code builds is sorted, whatever the tables *)
+Theorem C12_discontinuities_sorted : forall di sw : dist R, sortedR (mk_discont di sw).
+Proof. exact mk_discont_sorted. Qed.
+Print Assumptions C12_discontinuities_sorted.
+
+(* it starts at the root, and advances with dx/ds = -b tan(sweep), the span direction rotated by the dihedral *)
+Theorem C12_curve_start_and_tangent : forall (dr : R) (sw di : dist R),
+  (forall a b, ex_RInt (fun s => tan (angle_val dr sw s)) a b) ->
+  (forall a b, ex_RInt (fun s => cos (angle_val dr di s)) a b) ->
+  (forall a b, ex_RInt (fun s => sin (angle_val dr di s)) a b) ->
+  forall left_side root b,
+  curve_spec dr sw di left_side root b 0 = root /\
+  forall s, continuous (fun t => tan (angle_val dr sw t)) s -> continuous (fun t => cos (angle_val dr di t)) s ->
+            continuous (fun t => sin (angle_val dr di t)) s ->
+    is_derive (fun u => vx (curve_spec dr sw di left_side root b u)) s (- b * tan (angle_val dr sw s)) /\
+    is_derive (fun u => vy (curve_spec dr sw di left_side root b u)) s
+              (if left_side then - b * cos (angle_val dr di s) else b * cos (angle_val dr di s)) /\
+    is_derive (fun u => vz (curve_spec dr sw di left_side root b u)) s (- b * sin (angle_val dr di s)).
+Proof.
+  intros dr sw di HT HC HS left_side root b. split; [apply curve_starts_at_root|].
+  intros s CT CC CS. exact (curve_tangent dr sw di HT HC HS left_side root b s CT CC CS).
+Qed.
+Print Assumptions C12_curve_start_and_tangent.
+
+(* left segments are the mirror image of right ones: the curve, the connection offsets and the quarter-chord-points branch *)
+Theorem C12_curve_mirror : forall dr sw di root b s,
+  curve_spec dr sw di true (mirror_y root) b s = mirror_y (curve_spec dr sw di false root b s).
+Proof. exact curve_mirror. Qed.
+Print Assumptions C12_curve_mirror.
+Theorem C12_connection : forall dx dy dz yoff,
+  delta_origin true dx (- dy) dz yoff = mirror_y (delta_origin false dx dy dz yoff) /\
+  forall left_side origin, attach_at_root left_side (root_loc origin (delta_origin left_side dx dy dz yoff)) yoff = vadd origin (V3 dx dy dz).
+Proof. intros. split; [apply delta_origin_mirror | intros; apply attach_at_root_removes_offset]. Qed.
+Print Assumptions C12_connection.
+
+(* constant sweep and dihedral, no hypothesis left: the code's list of discontinuities is [0; 1] and the curve is the straight line *)
+Theorem C12_constant_angles_straight_line : forall dr left_side root b lam gam s, 0 <= s <= 1 ->
+  qc_code dr (DConst lam) (DConst gam) left_side root b (mk_discont (DConst lam) (DConst gam)) s =
+  V3 (vx root - s * b * tan (lam * dr))
+     (if left_side then vy root - s * b * cos (gam * dr) else vy root + s * b * cos (gam * dr))
+     (vz root - s * b * sin (gam * dr)).
+Proof. exact qc_const_line. Qed.
+Print Assumptions C12_constant_angles_straight_line.
+
+(* quarter-chord points: span fractions increase strictly when consecutive points differ in the y-z plane, the curve then passes
+   through every given point (y mirrored on the left) *)
+Theorem C12_quarter_chord_points : forall pts, pts <> [] -> distinct_yz 0 0 pts ->
+  incr_spans (qc_table pts) /\
+  forall left_side root t p, In (t, p) (qc_table pts) ->
+    qc_points left_side root (qc_table pts) t = V3 (vx root + vx p) (if left_side then vy root + - vy p else vy root + vy p) (vz root + vz p).
+Proof.
+  intros pts Hne Hd. pose proof (qc_table_incr pts Hne Hd) as Hi. split; [exact Hi|].
+  intros left_side root t p Hin. apply qc_points_through; assumption.
+Qed.
+Print Assumptions C12_quarter_chord_points.
+
+(* "shifted along the local chord by ll_offset": the displacement has length |offset| x chord, lies along the unswept chord line
+   (orthogonal to the unswept span and normal directions, which with it form an orthonormal triad); zero offset leaves the point *)
+Theorem C12_ll_offset : forall qc off chord tw di,
+  (let d := vsub (ll_loc qc off chord (unswept_axial cos sin tw di)) qc in
+   vdot d d = (off * chord) * (off * chord) /\ vdot d (unswept_span cos sin di) = 0 /\ vdot d (unswept_normal cos sin tw di) = 0) /\
+  ll_loc qc 0 chord (unswept_axial cos sin tw di) = qc /\
+  (let a := unswept_axial cos sin tw di in let n := unswept_normal cos sin tw di in let s := unswept_span cos sin di in
+   vdot a a = 1 /\ vdot n n = 1 /\ vdot s s = 1 /\ vdot a n = 0 /\ vdot a s = 0 /\ vdot n s = 0).
+Proof. intros. split; [apply ll_offset_distance | split; [apply ll_offset_zero | apply unswept_triad]]. Qed.
+Print Assumptions C12_ll_offset.
+
+(* the hypotheses are satisfiable: a two-piece description with a discontinuity list 0 < 0.4 < 1 *)
+Example C12_curve_nonvacuous : nondecr 0 [0.4; 1] /\ 0 <= 0.7 <= last [0.4; 1] 0 /\ distinct_yz 0 0 [V3 0 1 0; V3 (-0.2) 2 (-0.3)].
+Proof. cbn. repeat split; try lra; left; lra. Qed.
+
+(* ---------------------------------------------------------------------------------------------------------------------------------
+   Effective lifting lines and vortex joints (general corrections, airplane.py 557-671, Model/Reid.v). *)
+From MuxV Require Import Model.Reid Proofs.ReidP.
+(* without the corrections the nodes are the generated ones and there are no joints; with them every effective node is a convex
+   combination (weight in (0,1], a Gaussian of the span-wise distance) of the straight line through the control point and the actual
+   node, and the line passes through the control point itself *)
+Theorem C12_effective_line :
+  (forall fexp (w : list (sec R)) i, sreid i = false -> reid_row fexp w i = (map sP0 w, map sP1 w, map sP0 w, map sP1 w)) /\
+  (forall sigma PCi dPC PCsi P Ps, 0 <= sigma -> exists lam, 0 < lam <= 1 /\
+     blend_node exp sigma PCi dPC PCsi P Ps = vadd (vscale lam (vadd PCi (vscale (Ps - PCsi) dPC))) (vscale (1 - lam) P)) /\
+  (forall sigma PCi dPC PCsi P, blend_node exp sigma PCi dPC PCsi P PCsi = PCi).
+Proof. split; [exact reid_off | split; [exact blend_node_convex | exact blend_node_at_cp]]. Qed.
+Print Assumptions C12_effective_line.
+(* the joint direction is a unit vector orthogonal to the (unit) tangent of the effective line, in the plane of tangent and chord line,
+   on the chord line's side; the joint is chord x delta_joint long *)
+Theorem C12_joints : forall (Tn ua : v3 R), vdot Tn Tn = 1 -> vdot ua ua = 1 -> Rabs (vdot Tn ua) < 1 ->
+  (let u := joint_dir Tn ua in vdot u u = 1 /\ vdot u Tn = 0 /\ 0 < vdot u ua /\ exists c1 c2, u = vadd (vscale c1 ua) (vscale c2 Tn)) /\
+  forall P chord dj, let J := joint_node P chord dj (joint_dir Tn ua) in vdot (vsub J P) (vsub J P) = (chord * dj) * (chord * dj).
+Proof.
+  intros Tn ua HT Hu Hk. pose proof (joint_dir_spec Tn ua HT Hu Hk) as H. split; [exact H|].
+  intros P chord dj. cbv zeta. apply joint_node_length. cbv zeta in H. exact (proj1 H).
+Qed.
+Print Assumptions C12_joints.
